@@ -179,9 +179,9 @@ func TestC01Table(t *testing.T) {
 		if tc.unary {
 			expr = lang.Unary{Op: tc.op, X: le}
 			val, err = m.UnOp(tc.op, tc.l)
-			if openFinding("C03-sqrt-fold") && tc.op == "√" && lp == "literal" && tc.l.K == lang.KInt && tc.l.I >= 0 && tc.l.I <= 65534 {
+			if openFinding("C03-sqrt-fold") && tc.op == "√" && lp == "literal" && gen.FoldsToSquare(lang.Lit{V: tc.l}) {
 				// known finding C03-sqrt-fold: keep away from it by construction
-				col.Excluded("known:sqrt-of-inline-integer-literal")
+				col.Excluded("known:sqrt-of-a-perfect-square-literal")
 				continue
 			}
 		} else {
